@@ -36,6 +36,9 @@ def run(ctx):
     d_action_fields(ctx)
     e_cleanup(ctx)
     f_restore(ctx)
+    b_encode_total(ctx, enc)
+    e_aged_references(ctx)
+    f_state_owns_configs(ctx)
 
 
 def _enc_branches(enc):
@@ -381,3 +384,64 @@ def f_restore(ctx):
             and any(isinstance(v, ast.Constant) and v.value == "2.x" for v in a.value.values)]
     ok = bool(outs) and all(any(isinstance(v, ast.Call) and src(v.func) == "state_to_json" for v in a.value.values) for a in outs)
     ctx.check("C11.f.restore-decodes", LR, "LLMRails.generate_async", "output state serialised", ok, "the returned Colang 2 state is state_to_json(output_state)", line=fn.lineno)
+
+
+def b_encode_total(ctx, enc):
+    """Saving must succeed for every value a flow can hold.  The encoder walks containers as they are; an operation that is partial on the members (ordering a set whose
+    members are not mutually comparable) makes state_to_json raise for states that the live system handles fine."""
+    PARTIAL = {"sorted", "min", "max"}
+    bad = [c for c in ast.walk(enc) if isinstance(c, ast.Call) and src(c.func) in PARTIAL and c.args and any(isinstance(x, ast.Name) and x.id == enc.args.args[0].arg for x in ast.walk(c.args[0]))]
+    sorts = [c for c in ast.walk(enc) if isinstance(c, ast.Call) and isinstance(c.func, ast.Attribute) and c.func.attr == "sort"]
+    ok = not bad and not sorts
+    ctx.check("C11.b.encode-total", SER, "encode_to_dict", "no partial operation on container members", ok,
+              "containers are encoded member by member in iteration order" if ok else
+              "`%s` orders the members of a stored container: a set with members that cannot be compared with each other ({\"yes\", 1}, a set of regex patterns) makes state_to_json raise, so the state cannot be saved at all"
+              % first_line((bad or sorts)[0], 60), line=((bad or sorts)[0].lineno if (bad or sorts) else enc.lineno))
+
+
+def e_aged_references(ctx):
+    """_clean_up_state discards finished flow states after 5 s but leaves their uids in the scope lists of other flows.  A scope that is closed later walks that list:
+    the lookup must tolerate a uid whose state has been aged out, otherwise behaviour after an idle period differs from the live one (KeyError -> the owning flow fails)."""
+    t = ctx.tree.ast(SM)
+    sl = find_function(t, "slide")
+    cu = find_function(t, "_clean_up_state")
+    if sl is None or cu is None:
+        raise AnalysisError("slide / _clean_up_state not found", anchor=SM + "::slide")
+    purges_scopes = any("scopes" in src(n) for n in ast.walk(cu) if isinstance(n, (ast.Assign, ast.Delete, ast.Call)))
+    n = 0
+    for a in [a for a in ast.walk(sl) if isinstance(a, ast.Assign) and isinstance(a.value, ast.Call) and re.search(r"\.scopes\.(pop|get)$", src(a.value.func)) and isinstance(a.targets[0], ast.Tuple)]:
+        fl = a.targets[0].elts[0].id if isinstance(a.targets[0].elts[0], ast.Name) else None
+        if fl is None:
+            continue
+        for l in [l for l in ast.walk(sl) if isinstance(l, ast.For) and src(l.iter) == fl and isinstance(l.target, ast.Name)]:
+            v = l.target.id
+            for sub in [x for x in ast.walk(l) if isinstance(x, ast.Subscript) and src(x.value) == "state.flow_states" and src(x.slice) == v]:
+                n += 1
+                guarded = False
+                p_ = getattr(sub, "_parent", None)
+                while p_ is not None and p_ is not l:
+                    if isinstance(p_, ast.If) and re.sub(r"\s", "", src(p_.test)) == "%sinstate.flow_states" % v:
+                        guarded = True
+                    p_ = getattr(p_, "_parent", None)
+                ok = guarded or purges_scopes
+                ctx.check("C11.e.aged-references", SM, "slide", "state.flow_states[%s] for %s in the closed scope" % (v, v), ok,
+                          "the lookup of a flow recorded in a scope tolerates a state that was aged out" if ok else
+                          "flows recorded in a scope are looked up unguarded, but _clean_up_state discards finished flow states after 5 s without removing them from the scope lists: after an idle period "
+                          "closing the scope raises KeyError and the owning flow stops responding (live: no error)", line=sub.lineno)
+    ctx.floor("C11.e.aged-references", SM, "lookups of scope-recorded flows", n, 1)
+
+
+def f_state_owns_configs(ctx):
+    """A saved state contains its own expanded flow configurations: labels, fork/scope names and `$_ref_<uuid>` variables are generated per expansion and the saved flow
+    contexts refer to THOSE names.  A runtime that continues a passed-in state must use the state's configurations; re-pointing it to its own (different uuids) breaks every
+    match and jump that was in flight."""
+    RT2 = "nemoguardrails/colang/v2_x/runtime/runtime.py"
+    t = ctx.tree.ast(RT2)
+    pe = find_function(t, "process_events", "RuntimeV2_x")
+    if pe is None:
+        raise AnalysisError("RuntimeV2_x.process_events not found", anchor=RT2 + "::RuntimeV2_x.process_events")
+    stores = [a for a in ast.walk(pe) if isinstance(a, ast.Assign) and any(src(x) == "state.flow_configs" for x in a.targets)]
+    ctx.check("C11.f.state-owns-configs", RT2, "RuntimeV2_x.process_events", "flow configurations of a passed-in state", not stores,
+              "a state that is passed in keeps its own flow configurations (only a NEW state is built from the runtime's)" if not stores else
+              "`%s` replaces the flow configurations of a passed-in state: restored on another LLMRails instance (other worker, restart) the saved contexts refer to generated names that "
+              "do not exist in the runtime's own expansion, matching fails and the bot goes silent" % first_line(stores[0], 60), line=(stores[0].lineno if stores else pe.lineno))
